@@ -47,10 +47,13 @@ macro_rules! decode_dictionary_entries {
             let key = $decoder.decode()?;
             let value = $decoder.decode()?;
             if let Some(_duplicate) = $map.insert(key, value) {
-                // TODO
-                // If you insert a duplicate key into the map, it will return the old key.
-                // So, if we hit this, we return  an error, because dictionary keys must be unique.
-                todo!();
+                // If you insert a duplicate key into the map, it will return the old value.
+                // So, if we hit this, we return an error, because dictionary keys must be unique.
+                let error = $crate::InvalidDataErrorKind::IllegalValue {
+                    desc: "dictionaries cannot contain duplicate keys",
+                    value: None,
+                };
+                return Err(error.into());
             }
         }
     };
